@@ -328,6 +328,25 @@ func runC14(o Opts) error {
 			continue
 		}
 		time.Local = loc
+		// the days on which the zone's offset changes (2008..2025), and their neighbours: dates and noon date-times
+		prevOff := 0
+		nChange := 0
+		for day := time.Date(2008, 1, 1, 12, 0, 0, 0, time.UTC); day.Year() < 2026 && nChange < 40; day = day.AddDate(0, 0, 1) {
+			_, off := day.In(loc).Zone()
+			if off != prevOff && !(day.Year() == 2008 && day.YearDay() == 1) {
+				nChange++
+				for _, dd := range []time.Time{day.AddDate(0, 0, -1), day} {
+					y, m, d := dd.Year(), int(dd.Month()), dd.Day()
+					dt := types.ToDate(y, time.Month(m), d)
+					if t := time.Time(dt); t.Year() == y && int(t.Month()) == m && t.Day() == d {
+						c14round(s, "Date", dt, cvZ(y, m, d), "", z, "round/date-on-offset-change-day")
+					}
+					t := time.Date(y, time.Month(m), d, 12, 0, 0, 0, time.Local)
+					c14round(s, "DateTime", types.DateTime(t), cvZ(y, m, d, 12, 0, 0), t.Format("MST"), z, "round/datetime-on-offset-change-day")
+				}
+			}
+			prevOff = off
+		}
 		for i := 0; i < n; i++ {
 			y, m, d := genYMD(r)
 			dt := types.ToDate(y, time.Month(m), d)
